@@ -7,7 +7,13 @@ from hypothesis import strategies as st
 
 B = 16384
 
-TRAP_NAMES = ["a", "a.txt", "a b", "a-b", "B", "10", "9", ".hidden", "a0", "A", "b", "z.d", "a!", "aa"]
+# sort-order traps, plus names the tool itself uses for something (.pad directories, .torrent probe, config file)
+TRAP_NAMES = ["a", "a.txt", "a b", "a-b", "B", "10", "9", ".hidden", "a0", "A", "b", "z.d", "a!", "aa",
+              ".pad", ".torrent", "torrentfile.ini", "a.torrent",
+              # names of metafile fields (a payload entry may be called like one) and shell-pattern look-alikes
+              "source", "comment", "private", "announce", "info", "Title [2020]", "x[1]", "a*", "q?"]
+# whole paths the tool itself could produce or special-case
+TRAP_PATHS = [[".pad", "10"], [".pad", "16384"], [".pad", "x"], ["sub", ".pad", "9"]]
 # composed and decomposed forms, compatibility characters (an encoder must keep names byte-for-byte)
 NONASCII = ["\u00e9", "e\u0301", "\u00fc", "\u4e02", "\U0001f600", "\u212b", "\u00df", "\u03a9", "\ufb01"]
 SAFE_PUNCT = " !#$%&'()+,;=@[]^_{}~.-"
@@ -43,7 +49,8 @@ def name_component(cli_safe=False):
 
 def piece_length(tier="quick", exps=None):
     if exps is None:
-        exps = [14, 15, 16] if tier == "quick" else [14, 15, 16, 14, 15, 16, 17, 18]
+        # 2^21 / 2^22: pieces larger than any read-buffer size a hasher or checker is likely to use (rare: heavier cases)
+        exps = [14, 15, 16] * 6 + [21] if tier == "quick" else [14, 15, 16, 14, 15, 16, 17, 18] * 3 + [21, 22]
     return st.sampled_from(exps).map(lambda e: 1 << e)
 
 
@@ -51,11 +58,13 @@ def file_size(P, big=True):
     d = st.sampled_from([-2, -1, 0, 1, 2])
     kB = st.integers(0, 17)
     kP = st.one_of(st.integers(0, 4), st.integers(0, 17) if big else st.integers(0, 4))
+    if P >= 1 << 20:
+        kP = st.integers(0, 2)          # keep payloads of large-piece cases to a few MiB
     parts = [
         st.sampled_from([0, 1]),
         st.tuples(kB, d).map(lambda t: max(0, t[0] * B + t[1])),
         st.tuples(kP, d).map(lambda t: max(0, t[0] * P + t[1])),
-        st.integers(0, 3 * P),
+        st.integers(0, 3 * P) if P < 1 << 20 else st.tuples(st.integers(0, 3), st.sampled_from([-1, 0, 1, 12345])).map(lambda t: max(0, t[0] * (1 << 20) + t[1])),
         st.integers(0, 64),
         st.tuples(kP, st.integers(0, P - 1)).map(lambda t: t[0] * P + t[1]),
     ]
@@ -107,7 +116,7 @@ def _fix_paths(paths):
 
 @st.composite
 def tree(draw, P, max_files=8, modes=None, single=None, min_files=1, cli_safe=False, big=True,
-         nonempty_total=False):
+         nonempty_total=False, hardlinks=True):
     """A content tree: {'name','single','files':[{'path','size','mode','seed'}]}."""
     modes = modes or MODES_ALL
     comp = name_component(cli_safe)
@@ -115,7 +124,7 @@ def tree(draw, P, max_files=8, modes=None, single=None, min_files=1, cli_safe=Fa
     if single is None:
         single = draw(st.sampled_from([False, False, False, True]))
     if single:
-        if "nz" in modes and draw(st.integers(0, 11)) == 0:
+        if "nz" in modes and draw(st.sampled_from([True] + [False] * 11)):
             # a tiny region no random search reaches: the single piece's SHA-1 is valid UTF-8 (a lenient decoder
             # may hand it back as text instead of bytes)
             size, seed = draw(st.sampled_from(UTF8_SHA1))
@@ -128,7 +137,7 @@ def tree(draw, P, max_files=8, modes=None, single=None, min_files=1, cli_safe=Fa
     one = st.one_of(st.sampled_from(pool), comp)
     depth = st.sampled_from([1, 1, 1, 2, 2, 3, 4])
     raw = [draw(st.lists(one, min_size=1, max_size=draw(depth))) for _ in range(n)]
-    if draw(st.integers(0, 3)) == 0:
+    if draw(st.sampled_from([True] + [False] * 3)):
         # sort-order trap: a sibling that differs from an existing entry only in letter case / Unicode normal form
         import unicodedata
         src = list(raw[draw(st.integers(0, len(raw) - 1))])
@@ -138,6 +147,12 @@ def tree(draw, P, max_files=8, modes=None, single=None, min_files=1, cli_safe=Fa
         if twin != src[lvl] and twin not in (".", ".."):
             src[lvl] = twin
             raw.append(src)
+    if draw(st.sampled_from([True] + [False] * 9)):
+        raw.append(list(draw(st.sampled_from(TRAP_PATHS))))
+    if draw(st.sampled_from([True] + [False] * 5)):
+        # a component that contains the root's own name (prefix stripping by string replacement goes wrong on these)
+        echo = draw(st.sampled_from(["meta" + name, name + "2", name]))
+        raw.append([echo, draw(one)] if draw(st.booleans()) else [draw(one), echo])
     paths = _fix_paths(raw)
     files = []
     for p in paths:
@@ -146,13 +161,30 @@ def tree(draw, P, max_files=8, modes=None, single=None, min_files=1, cli_safe=Fa
         files.append(f)
     if nonempty_total and all(f["size"] == 0 for f in files):
         files[0]["size"] = 1 + draw(st.integers(0, 2 * P))
-    if len(files) >= 2 and draw(st.integers(0, 3)) == 0:
+    if len(files) >= 2 and draw(st.sampled_from([True] + [False] * 3)):
         # make one file start mid-piece and end exactly on a piece boundary of the v1 stream (full-path order)
         order = sorted(range(len(files)), key=lambda i: "/".join([name] + files[i]["path"]))
         j = draw(st.integers(1, len(files) - 1))
         off = sum(files[i]["size"] for i in order[:j])
         if off % P:
             files[order[j]]["size"] = (-off) % P + P * draw(st.integers(0, 2))
+    if draw(st.sampled_from([True] + [False] * 5)):
+        # a byte-identical copy of an existing file under another name (same content twice in one payload)
+        j = draw(st.integers(0, len(files) - 1))
+        twin = dict(files[j])
+        twin.pop("hardlink", None)
+        twin["path"] = _fix_paths([list(t["path"]) for t in files] + [list(draw(st.lists(one, min_size=1, max_size=2)))])[-1]
+        files.append(twin)
+    for f in files:
+        if draw(st.sampled_from([True] + [False] * 9)):
+            f["x"] = True       # executable bit set on disk
+    if hardlinks and draw(st.sampled_from([True] + [False] * 5)):
+        # a second name for an existing regular file (hard link): still a regular file that must be listed and hashed
+        j = draw(st.integers(0, len(files) - 1))
+        twin = dict(files[j])
+        twin["path"] = _fix_paths([list(t["path"]) for t in files] + [list(draw(st.lists(one, min_size=1, max_size=2)))])[-1]
+        twin["hardlink"] = j
+        files.append(twin)
     if len(files) == 1 and files[0]["path"] == [name]:
         # BEP 52 cannot tell "directory x holding only file x" from "single file x": not generated
         files[0]["path"] = [name + "~f"]
